@@ -149,6 +149,11 @@ Section Shape.
     Definition kshape (k : kind) (items : list schema) (props : list (ustring * schema))
                (req : list ustring) (ap : option schema) (oneo : option (list schema)) (t : id) : Prop :=
       match k with
+      | KOpt =>
+          match oneo with
+          | Some (a :: b :: nil) => exists i, has t (DOption i) /\ (if nullish a then sh b i else sh a i)
+          | _ => False
+          end
       | KOne tg =>
           match oneo with
           | Some bs =>
@@ -595,7 +600,7 @@ Section ShapeMain.
     ks_names : names_sub s0 s1 (sub_names cls k nm' items props ap oneo);
     ks_ents : ents_ok nD (lk s1);
     ks_te : te_ok nD (lk s1) te;
-    ks_nonopt : match te with DOption _ => False | _ => True end;
+    ks_nonopt : match te with DOption _ => k = KOpt | _ => True end;
     ks_kind : kkind k te;
     ks_payload : forall T, ext s1 T -> DefsNamed T -> kpayload T items props req te;
     ks_shape : forall T, ext s1 T -> DefsNamed T -> forall t, realizes (get T) t te ->
@@ -1256,6 +1261,41 @@ Section ShapeMain.
              exists x, t'. split; [right; exact Hin|exact Hsh].
   Qed.
 
+  (* only a nullable node or an Option union converts to an Option entry *)
+  Lemma conv_nonopt_te sc nm s0 te s1 k :
+    cvf sc nm s0 = Some (te, s1) -> classify_s sc = Some (false, k) -> k <> KOpt ->
+    match te with DOption _ => False | _ => True end.
+  Proof.
+    destruct sc as [[|]|ty fmt enum cst nv sv ik items ai mni mxi uq props req ap mnp mxp allo anyo oneo no ref dflt title];
+      try discriminate.
+    cbn [conv classify_s]. intros Hc Hcl Hk. rewrite Hcl in Hc. cbn [conv_node] in Hc.
+    destruct k as [| | | |mx mn pat|r|raws|deny| | |c|c|r| |tg|]; cbn [conv_kind] in Hc; try congruence;
+      try (injection Hc as <- _; exact I).
+    - destruct (assign DString _). destruct (type_name cls nm); [|discriminate]. injection Hc as <- _. exact I.
+    - destruct (type_name cls nm); [|discriminate]. unfold mk_enum in Hc.
+      destruct (Sanitize.variant_idents cls raws); try discriminate. injection Hc as <- _. exact I.
+    - destruct (type_name cls nm); [|discriminate]. destruct (conv_props cls cvf u req props s0) as [[ps sa]|]; [|discriminate].
+      destruct (Sanitize.unique _); [|discriminate]. injection Hc as <- _. exact I.
+    - destruct (assign DString s0). destruct ap.
+      + destruct (cvf s2 _ s); [|discriminate]. destruct p. destruct (assign d s3). injection Hc as <- _. exact I.
+      + destruct (assign DJsonValue _). injection Hc as <- _. exact I.
+    - destruct (conv_items cvf nm 0 items s0) as [[ts sa]|]; [|discriminate]. injection Hc as <- _. exact I.
+    - destruct items as [|it [|? ?]]; try discriminate. destruct (cvf it _ s0) as [[tei sa]|]; [|discriminate].
+      destruct (assign tei sa). injection Hc as <- _. destruct c; exact I.
+    - destruct (assign DJsonValue _). injection Hc as <- _. destruct c; exact I.
+    - destruct (ref_id D r); [|discriminate]. injection Hc as <- _. exact I.
+    - destruct tg as [|t|t c|]; (destruct (type_name cls nm); [|discriminate]); (destruct oneo as [bs|]; [|discriminate]).
+      + destruct (conv_xbranches cvf nm bs s0) as [[[rvs dn] sa]|]; [|discriminate]. unfold mk_tagged in Hc.
+        destruct (Sanitize.variant_idents cls (map fst rvs)); try discriminate. injection Hc as <- _. exact I.
+      + destruct (conv_ibranches cls cvf nm t bs s0) as [[rvs sa]|]; [|discriminate]. unfold mk_tagged in Hc.
+        destruct (Sanitize.variant_idents cls (map fst rvs)); try discriminate. injection Hc as <- _. exact I.
+      + destruct (conv_abranches cvf nm t c bs s0) as [[[rvs dn] sa]|]; [|discriminate]. unfold mk_tagged in Hc.
+        destruct (Sanitize.variant_idents cls (map fst rvs)); try discriminate. injection Hc as <- _. exact I.
+      + destruct (conv_ubranches cvf u 0 bs s0) as [[[rvs dn] sa]|]; [|discriminate]. destruct (_ <=? _)%nat; [discriminate|].
+        unfold mk_tagged in Hc.
+        destruct (Sanitize.variant_idents cls (map fst rvs)); try discriminate. injection Hc as <- _. exact I.
+  Qed.
+
   Lemma kind_shape items props req ap oneo k nm' s0 te s1
       (Hfk : frag_kind cls D k items props req ap oneo = true)
       (IHitems : Forall SP items)
@@ -1269,7 +1309,53 @@ Section ShapeMain.
     KSPost items props req ap oneo k nm' s0 te s1.
   Proof.
     intros Hc Hw Hnx Hg Hnd Hfr.
-    destruct k as [| | | |mx mn pat|r|raws|deny| | |c|c|r| |tg]; cbn [conv_kind] in Hc.
+    destruct k as [| | | |mx mn pat|r|raws|deny| | |c|c|r| |tg|]; cbn [conv_kind] in Hc.
+    16: { (* KOpt: Option of the non-null arm *)
+      destruct (arms_props SP oneo IHone0) as [_ IHoneB].
+      cbn [frag_kind] in Hfk. destruct oneo as [[|a [|b [|]]]|]; try discriminate. cbn [OForall] in IHoneB.
+      cbn [own_names sub_names app] in Hnd, Hfr.
+      assert (Hgen : forall arm, SP arm -> opt_arm_ok arm && frag cls keys arm = true ->
+                match cvf arm (inner_name nm') s0 with
+                | Some (te0, s1') => let '(i, s2) := assign te0 s1' in Some (DOption i, s2)
+                | None => None
+                end = Some (te, s1) ->
+                NoDup (names_of cls arm (inner_name nm')) ->
+                (forall n, In n (names_of cls arm (inner_name nm')) -> ~ In n (nkeys s0)) ->
+                exists i, te = DOption i /\ wf s1 /\ frame s0 s1 /\ names_sub s0 s1 (names_of cls arm (inner_name nm')) /\
+                  ents_ok nD (lk s1) /\ te_ok nD (lk s1) te /\
+                  forall T, ext s1 T -> DefsNamed T -> shape cls D T arm i).
+      { intros arm HPa Hok Hcv Hnda Hfra. apply andb_true_iff in Hok. destruct Hok as [Hok Hfa].
+        destruct (cvf arm (inner_name nm') s0) as [[te0 s1']|] eqn:Hca; [|discriminate].
+        destruct (assign te0 s1') as [i s2] eqn:Ha. injection Hcv as <- <-.
+        destruct (SP_assign arm HPa Hfa _ _ _ _ _ _ Hca Ha Hw Hnx Hg Hnda Hfra) as [Hw2 Hf2 Hns2 Hg2 Hid2 HS2].
+        exists i. split; [reflexivity|]. split; [exact Hw2|]. split; [exact Hf2|]. split; [exact Hns2|]. split; [exact Hg2|].
+        split; [|exact HS2].
+        cbn [te_ok det_ok]. split; [exact Hid2|]. intros e He.
+        assert (Hno : match te0 with DOption _ => False | _ => True end).
+        { unfold opt_arm_ok in Hok. destruct (classify_s arm) as [[[|] k']|] eqn:Hcl'; try discriminate.
+          apply (conv_nonopt_te arm _ s0 te0 s1' k' Hca Hcl'). intros ->. discriminate Hok. }
+        destruct (HPa Hfa _ _ _ _ Hca Hw Hnx Hg Hnda Hfra) as [Hw1 Hf1 (L & HL & Hns1) Hg1 Hte1 _ _ _].
+        assert (Hfresh : forall n, det_name te0 = Some n -> ~ In n (nkeys s1')).
+        { intros n Hn Hin. unfold own_of in HL. rewrite Hn in HL.
+          destruct (Hns1 n Hin) as [H|H].
+          - apply (Hfra n); [rewrite HL; left; reflexivity|exact H].
+          - rewrite HL in Hnda. cbn in Hnda. inversion Hnda; subst. contradiction. }
+        destruct (assign_ok te0 s1' i s2 Ha Hw1 Hfresh) as (_ & _ & Hr2 & _ & _).
+        destruct te0; cbn [realizes] in Hr2; try contradiction;
+          try (rewrite Hr2 in He; injection He as <-; exact I).
+        subst i. cbn [te_ok] in Hte1. destruct Hg2 as [_ Hg2b].
+        apply named_not_option. exact (Hg2b _ e (proj1 Hte1) (proj2 Hte1) He). }
+      destruct (nullish a) eqn:Hna.
+      - destruct (Hgen b (Forall_inv (Forall_inv_tail IHoneB)) Hfk Hc Hnd Hfr) as (i & -> & Hw1 & Hf1 & Hns1 & Hg1 & Hte1 & HS1).
+        split; [exact Hw1|exact Hf1|reflexivity|cbn [sub_names]; rewrite Hna; exact Hns1|exact Hg1|exact Hte1|reflexivity|exact I
+               |intros T _ _; exact I|].
+        intros T He Hp t Hr. cbn [realizes] in Hr. apply get_det_of in Hr. cbn [kshape]. rewrite Hna.
+        exists i. split; [exact Hr|exact (HS1 T He Hp)].
+      - destruct (Hgen a (Forall_inv IHoneB) Hfk Hc Hnd Hfr) as (i & -> & Hw1 & Hf1 & Hns1 & Hg1 & Hte1 & HS1).
+        split; [exact Hw1|exact Hf1|reflexivity|cbn [sub_names]; rewrite Hna; exact Hns1|exact Hg1|exact Hte1|reflexivity|exact I
+               |intros T _ _; exact I|].
+        intros T He Hp t Hr. cbn [realizes] in Hr. apply get_det_of in Hr. cbn [kshape]. rewrite Hna.
+        exists i. split; [exact Hr|exact (HS1 T He Hp)]. }
     - injection Hc as <- <-. apply scalar_kspost; try reflexivity; try assumption; try exact I. intros T t H; exact H.
     - injection Hc as <- <-. apply scalar_kspost; try reflexivity; try assumption; try exact I. intros T t H; exact H.
     - injection Hc as <- <-. apply scalar_kspost; try reflexivity; try assumption; try exact I. intros T t H; exact H.
@@ -1609,6 +1695,8 @@ Section ShapeMain.
           rewrite Hown. unfold own_of. intros x Hx. apply in_app_or in Hx. apply in_or_app.
           destruct Hx; [right|left]; assumption.
         * cbn [te_ok det_ok]. split; [exact Hid2|]. intros e He.
+          assert (Hno' : match te' with DOption _ => False | _ => True end).
+          { destruct te'; try exact I. rewrite Hno in Hone. destruct Hone as [Hx _]. discriminate Hx. }
           destruct te'; cbn [realizes] in Hr2; try contradiction;
             try (rewrite Hr2 in He; injection He as <-; exact I).
           subst i. cbn [te_ok] in Hte1. destruct Hg2 as [_ Hg2b].
